@@ -93,6 +93,10 @@ class MAUPITIConv2d(nn.Conv2d, MAUPITIModule):
                 self.b_quantizer.dequantize = False
                 int_bias = self.b_quantizer(conv.bias, self.s_x, self.s_w)
                 int_bias = cast(torch.Tensor, int_bias)
+            else:
+                # No bias: an all-zero integer bias keeps the overflow check of
+                # `_integer_approximation` and the requantization well defined
+                int_bias = torch.zeros(self.out_channels, device=self.device)
 
         self.scale, self.shift = self._integer_approximation(self.s_w, self.s_x, self.s_y,
                                                              int_bias)
@@ -105,7 +109,7 @@ class MAUPITIConv2d(nn.Conv2d, MAUPITIModule):
                     self.bias = cast(torch.Tensor, self.bias)
                     self.bias.copy_(int_bias)
             else:
-                self.add_bias = None
+                self.add_bias = int_bias.view(1, self.out_channels, 1, 1)
 
         # Done here to avoid the reshape op in fwd
         self.scale = self.scale.view(1, self.out_channels, 1, 1)
